@@ -45,9 +45,9 @@ pub(crate) fn ipermute<T: Copy>(x: &mut [T], b: &[T], p: &[usize]) {
 // Construct an inverse permutation from a permutation
 #[cfg_attr(not(feature = "sdp"), allow(dead_code))]
 pub(crate) fn invperm(p: &[usize]) -> Vec<usize> {
-    let mut b = vec![0; p.len()];
+    let mut b = vec![usize::MAX; p.len()];
     for (i, j) in p.iter().enumerate() {
-        assert!(*j < p.len() && b[*j] == 0);
+        assert!(*j < p.len() && b[*j] == usize::MAX);
         b[*j] = i;
     }
     b
